@@ -23,6 +23,7 @@ ASSUMPTIONS = [
 ]
 LINKING = {"only": {"link", "set_meta", "set_ref", "create_feature", "set_link"}, "pred": lambda op: not (op[0] == "set_meta" and op[2] is None) and not (op[0] == "set_ref" and op[3] is None)}
 LINKING_THIN = dict(LINKING, nsecs=1, narr=2, nsrc=2)
+XLINKING = dict(LINKING, xblock=True, only={"set_ref"}, narr=2)
 REMOVING = {"only": {"delete", "unlink", "set_meta", "set_ref"}, "delete_modes": True,
             "pred": lambda op: (op[0] != "set_meta" or op[2] is None) and (op[0] != "set_ref" or op[3] is None)}
 REMOVING_NAME = dict(REMOVING, delete_modes=False)
@@ -35,9 +36,11 @@ def BOUNDS(tier):
         return {"rich": "k=0: every delete x 5 addressing modes (features also by data name/id), every unlink; chains of 2 deletes by name on mini/light",
                 "mini": "k<=1 then every removal (all addressing modes)", "block": "k<=1 (thin) then every removal by name",
                 "light": "k<=1 (section links, metadata) then every removal by name",
+                "xmini": "two blocks whose multi tags use arrays of the other block as positions/extents: every removal (all addressing modes), chains of 2, and k<=1 cross-block re-links then every removal",
                 "states mode (E1s)": "mini: every link topology <= 2 link operations away (235 canonical states), every removal by name from each"}
     return {"rich": "k=0 all removals; chains of 2 removals by name; k=1 (thin) then removal by name",
             "mini": "k<=2 then every removal", "block": "k<=1 then every removal",
+            "xmini": "as quick",
             "states mode (E1s)": "mini: link topologies <= 3 link operations away (1 642 states) x every removal in every addressing mode; block <= 2 (1 266) and light <= 3 (7 148) x every removal by name"}
 
 
@@ -56,6 +59,10 @@ def cases(tier):
     add("light", explorer.enumerate_histories("light", 2, [REMOVING_NAME, REMOVING_NAME]))
     add("block", explorer.enumerate_histories("block", 2, [LINKING_THIN, REMOVING_NAME]))
     add("light", explorer.enumerate_histories("light", 2, [dict(LINKING_THIN, only={"set_link", "set_meta"}), REMOVING_NAME]))
+    # links that cross block boundaries (multi tag positions / extents in another block)
+    add("xmini", explorer.enumerate_histories("xmini", 1, REMOVING))
+    add("xmini", explorer.enumerate_histories("xmini", 2, [XLINKING, REMOVING_NAME]))
+    add("xmini", explorer.enumerate_histories("xmini", 2, [REMOVING_NAME, REMOVING_NAME]))
     if tier == "thorough":
         add("rich", explorer.enumerate_histories("rich", 2, [REMOVING_NAME, REMOVING_NAME]))
         add("rich", explorer.enumerate_histories("rich", 2, [LINKING_THIN, REMOVING_NAME]))
